@@ -204,7 +204,7 @@ def canary(human, rec):
            "(CFail R.CmdRevision [] %s)" % cf.lst(S(x) for x in human["cmd"]["rows"])]               # refused
     if len(ran) >= 2:
         bad.append("(COk %s %s)" % (cf.lst(S(x) for x in ran[::-1]), cf.lst(S(x) for x in rows)))     # wrong order
-    return bad
+    return [b for b in bad if b != rec["cout"]]          # (an empty table has no row to lose)
 
 
 # ----------------------------------------------------------------------------- generators
